@@ -232,12 +232,20 @@ Proof.
     [apply inv_remove|]; assumption.
 Qed.
 
+Lemma h_ctl_close_inv cfg s r s' acts : inv cfg s -> h_ctl_close s r = (s', acts) -> inv cfg s'.
+Proof.
+  intros Hinv H. unfold h_ctl_close in H. destruct (find_alloc r (allocs s)); inversion H; subst;
+    [apply inv_remove|]; assumption.
+Qed.
+Lemma h_srv_close_inv cfg s s' acts : inv cfg s -> h_srv_close s = (s', acts) -> inv cfg s'.
+Proof. intros _ H. inversion H; subst. split; cbn; constructor. Qed.
+
 Lemma state_unchanged_cases {A} (s s' : state) (acts acts' : A) : (s, acts) = (s', acts') -> s' = s.
 Proof. intros H; inversion H; reflexivity. Qed.
 
 Theorem inv_step cfg s e s' acts : inv cfg s -> step cfg s e = (s', acts) -> inv cfg s'.
 Proof.
-  intros Hinv H. destruct e as [src tid c r unk|src p d|src n d|relay from d|dt|relay]; cbn [step] in H.
+  intros Hinv H. destruct e as [src tid c r unk|src p d|src n d|relay from d|dt|relay|csrc|]; cbn [step] in H.
   - destruct unk; [inversion H; subst; assumption|].
     destruct r as [tr lt fam df rp|lt fam|peers|n p|]; try (inversion H; subst; assumption);
       destruct (authenticate cfg s c) as [uid|code ch]; try (inversion H; subst; assumption).
@@ -250,6 +258,8 @@ Proof.
   - unfold h_peer in H. repeat (dmatch H; try (inversion H; subst; assumption)).
   - eapply h_tick_inv; eauto.
   - eapply h_relay_err_inv; eauto.
+  - eapply h_ctl_close_inv; eauto.
+  - eapply h_srv_close_inv; eauto.
 Qed.
 
 Lemma inv_init cfg ep : inv cfg (init ep).
